@@ -5,7 +5,7 @@ SPEC = {
     "coq_targets": ["Props/C18.vo", "Extract/ExC18.vo"],
     "bin": "c18",
     # --n = total number of next_timestamp calls made on real generators
-    "sizes": {"quick": 2000000, "thorough": 40000000},
+    "sizes": {"quick": 2000000, "thorough": 100000000},
     "search_n": 6000000,
     "rule": ("T = one real MonotonicTimestampGenerator shared by 2..16 OS threads x 100..65000 calls (every thread "
              "count 2..16 once, then seeded sizes; paces: tight loop, random spins, yield_now, staggered bursts; "
@@ -13,11 +13,16 @@ SPEC = {
              "call after the join, checked by the extracted property predicate prop_ok (= distinct over all threads "
              "and strictly increasing per thread, C18_prop_ok_iff) and final_ok; B = single thread with the harness' "
              "own SystemTime readings around every call, checked by the extracted bracket acceptor (the value must "
-             "be exactly what the model's compute_next returns for some reading in the bracket); non-trivial = every "
+             "be exactly what the model's compute_next returns for some reading in the bracket); pace 4 of T = two "
+             "phases separated by a barrier, every second-phase value must exceed every first-phase value "
+             "(phase_ok, C18_call_order); E = end-to-end: a real Session (generator wrapped in a call counter / no "
+             "generator) sends 30..900 concurrent QUERY/EXECUTE/BATCH requests to mocknode, 40% with an explicit "
+             "statement timestamp (boundary values incl. i64::MIN/MAX), the timestamp field of every received frame "
+             "is compared with the extracted choose_ts, generated ones must be pairwise distinct, and the number of "
+             "next_timestamp calls must equal the number of frames without a statement timestamp; non-trivial = every "
              "case; distinct = distinct case lines (each carries the serial number of the run)"),
     "trusted_base": [
-        "the three `statement.get_timestamp().or_else(generator)` sites of connection.rs are modelled (choose_ts) but "
-        "not exercised by the tie (needs the end-to-end mock node)",
+        "E cases: vh::mocknode (own CQL v4 frame reader) reports the timestamp field of QUERY/EXECUTE/BATCH frames",
         "SeqCst load / compare_exchange are modelled as single atomic steps of a sequentially consistent memory",
         "B cases: the harness reads SystemTime before/after each call and assumes the clock did not step backwards "
         "inside that window unless its own two readings show it",
